@@ -14,6 +14,19 @@ COMMON_NOTE = ("Trusted: Lean 4.33 kernel (axioms ⊆ {propext, Classical.choice
                "fixed-offset zones, zip, libgit2, std::fs); f64 is modelled in ℚ and exact only on small dyadic values.")
 
 CLAIMS = {
+    "C01": {
+        "technique": "Lean 4 theorems by mutual structural induction over the directory tree: depth-first visit_dir = check_file folded over the pruned pre-order (state-passing walker with visited-inode set; depth arithmetic lemma), window = filter by level, subtree contiguity, counting + CLI correspondence (exact sequences incl. bfs) + os.walk oracle",
+        "text": ("Theorems for every finite tree (any shape, depth, names, entry kinds) and every mindepth/maxdepth: with no streamed "
+                 "LIMIT the depth-first searcher's result is exactly check_file (+ archive member loop) folded over the entries in pre-order "
+                 "pruned below maxdepth, the traversal state only gains the tree's inode numbers, no error is recorded; that event list is "
+                 "the full pre-order filtered by level ≤ maxdepth, entries with level < mindepth are not reported, a directory is "
+                 "immediately followed by its subtree, links are not entered, and with unbounded depth there are exactly as many events as "
+                 "entries. Hypotheses explicit with a satisfying example: single-component names, listable directories, pairwise distinct "
+                 "directory/symlink inodes not seen before, root canonical path longer than '/' (counterexample theorem for D58). "
+                 "Breadth-first mode (same set, level order) and several roots are decided by byte-exact correspondence with the model "
+                 "and by the os.walk oracle, not by theorems."),
+        "ref": "DESIGN.md §4 C01",
+    },
     "C02": {
         "technique": "Lean 4 theorems on compareValues/Variant coercions/leafP (numeric, boolean, text atoms; quoted literal is text; boolean literal rejection) + CLI correspondence + independent Python oracle from lstat",
         "text": ("Theorems for every entry value and every literal meeting the stated well-formedness predicate: an integer-typed column "
